@@ -1,7 +1,7 @@
 /-
   K11c (wp k11b2) — `Decoder.correctBits` of aztec/decoder/decoder.go, regenerated from /repo on every run
   (`Gzx.Gen.K11b.correctBits`), proved equal to the hand-written model `AztecDecoder.correctBits` FOR ALL ARGUMENTS
-  (`k_correctBits_eq`; replaces `k_correctBits_samples_partial`):
+  (`k_correctBits_eq`; replaces the former `k_correctBits_samples_partial`, now `k_correctBits_samples`):
 
     * the codeword size / Galois field by layer count (any `int` layer count: the model sees `layers.toNat`),
     * the chunk loop `for i := 0; i < numCodewords; i, offset = i+1, offset+codewordSize` = `chunkWords`,
